@@ -1,7 +1,9 @@
 """C06 — call checking: arguments against parameter types, result type.
 
 Monitor: generated annotated callables (plain, defaulted, *args/**kwargs-typed, methods, classmethods, staticmethods,
-constructors, dataclasses, NamedTuples, TypeVar-generic helpers) are called with literal arguments inside a checked,
+constructors, dataclasses, NamedTuples, TypeVar-generic helpers, callables sharing one type variable between parameters
+only, ParamSpec forwarders, method kinds x definition sites x receiver forms, **{...} arguments, methods of generic
+classes reached through binding subclasses) are called with literal arguments inside a checked,
 never-called function (one call per line, annotate=True). For every call that binds:
   (1) diagnosed (incompatible_argument / incompatible_call on the line)  <=>  some argument is not a member of the
       declared type of the parameter it binds to (membership oracle, all memberships decided);
@@ -31,7 +33,27 @@ RULE = (
     "with defaults, optionally positional-only) and optionally *rest, over class-based types (plus Literal types for "
     "callables only called with short star items); the call is 0-n explicit positionals, then one *-item: a tuple / "
     "list display of 0-2 elements, a short str / bytes / range, or (when *rest exists) a str / bytes / range of 1000-2000 "
-    "items that pyanalyze does not expand element by element, then sometimes one more positional. Non-trivial = all "
+    "items that pyanalyze does not expand element by element, then sometimes one more positional. SHARED type variable "
+    "(kind shared-tv): one variable (free T, bound TN: float, constrained TC: (int, str), AnyStr) on 2-3 parameters through "
+    "covariant forms (T / Optional[T] / Sequence[T] / Iterable[T] / Tuple[T, int] / Tuple[T, ...]), optionally one plain "
+    "int/str parameter, trailing defaults that say nothing about the variable (None, ()), keyword-only parameters; "
+    "containers: function, method, staticmethod, classmethod (through class and instance), __init__; the return "
+    "annotation mentions NO type variable (bool / None / int / str; every __init__) in 3 of 4 callables, else it is the "
+    "variable; argument tuples are jointly consistent (all from one admissible solution), jointly INCONSISTENT (each "
+    "argument fits the variable alone, no single constraint fits all) or contain a plain non-member. ParamSpec forwarders "
+    "(kind pspec-forward): the calls generated for plain / defaulted / keyword-only / *args / **kwargs callables routed "
+    "through fw(fn_: Callable[P, R], *args: P.args, **kwargs: P.kwargs) returning None / bool (no type variable) or R. "
+    "METHOD MATRIX (kind method-matrix): a base class defining a plain method, a classmethod and a staticmethod (1-3 "
+    "parameters from the vocabulary, defaults, keyword-only), a child and a grandchild that inherit them, a sibling that "
+    "overrides some of them with the same shape and other parameter types; every method is called through the class, an "
+    "instance literal, a parameter known only by type (r: R), a type[R] parameter, a module-level instance, self / cls "
+    "inside another method / classmethod of the receiver class, and super() inside a method / classmethod of a subclass. "
+    "**-ARGUMENT calls (kind dstarcall): a suffix of the arguments travels in **{...}: flat, with a nested **{...}, with "
+    "a key written twice in one display, a key repeated across the nesting levels (inner last / outer last) with a value "
+    "of the opposite membership, two **-arguments, or **dict(k=v) (all-member calls only). GENERIC CLASS (kind "
+    "generic-class): GB(Generic[T]) with __init__(y: T), put(y: T) -> bool, swap(y: T) -> T and classmethods mk(y: T) -> "
+    "GB[T], chk(y: T) -> None, reached through a subclass GS(GB[B]), its child, or the alias GB[B] (B from 11 concrete "
+    "types), by class object, instance literal, r: GS, t: Type[GS], b: GB[B]. Non-trivial = all "
     "memberships decided; distinct by (callable kind, parameter type constructors, argument sources); both verdicts "
     "counted per callable kind."
 )
@@ -46,14 +68,31 @@ ASSUMPTIONS = [
     "starcall: the expectation comes from CPython's binder (inspect.signature(callee).bind on the evaluated arguments) "
     "plus the membership oracle on every bound value; defaults left alone are not arguments; callables that receive "
     ">= 1000-item star items use class-based parameter types only, since pyanalyze knows such elements by class only",
+    "shared-tv: only covariant forms, so 'some admissible solution (a constraint / the bound / object) makes every argument "
+    "a member of the substituted parameter type' is decided by the membership oracle on the substituted types; omitted "
+    "defaults are None / () and put no requirement on the variable",
+    "pspec-forward: forwarding through Callable[P, R], *args: P.args, **kwargs: P.kwargs is acceptable exactly when the "
+    "direct call is",
+    "method-matrix / dstarcall: CPython performs the attribute access, evaluates the arguments and binds them "
+    "(inspect.signature(...).bind); the annotations are those of the definition CPython found (__qualname__); zero-argument "
+    "super() inside a method of R is super(R, self)",
+    "generic-class: inside GS(GB[B]) and GB[B] a parameter annotated T has the declared type B",
 ]
 FLOORS = {
     "quick": {"distinct_nontrivial": 8000, "calls_judged": 10000, "expect_error": 3000, "expect_clean": 3000, "results_checked": 3000,
               "generic_gen_results_checked": 1400, "generic_gen_results_with_omitted_default": 330,
-              "starcall_judged": 1500, "starcall_long_judged": 330, "starcall_long_expect_error": 240},
+              "starcall_judged": 1500, "starcall_long_judged": 330, "starcall_long_expect_error": 240,
+              "shared_tv_judged": 1500, "shared_tv_joint_inconsistent_without_variable_in_return": 320,
+              "pspec_forward_judged": 560, "pspec_forward_error_without_variable_in_return": 190,
+              "matrix_judged": 1550, "matrix_inherited_static_via_instance": 225, "matrix_inside_method": 670,
+              "dstarcall_judged": 445, "dstarcall_repeated_key_judged": 150, "generic_class_judged": 480},
     "thorough": {"distinct_nontrivial": 60000, "calls_judged": 80000, "results_checked": 25000,
                  "generic_gen_results_checked": 19000, "generic_gen_results_with_omitted_default": 4900,
-                 "starcall_judged": 26000, "starcall_long_judged": 5800, "starcall_long_expect_error": 4300},
+                 "starcall_judged": 26000, "starcall_long_judged": 5800, "starcall_long_expect_error": 4300,
+                 "shared_tv_judged": 25000, "shared_tv_joint_inconsistent_without_variable_in_return": 5900,
+                 "pspec_forward_judged": 5800, "pspec_forward_error_without_variable_in_return": 2000,
+                 "matrix_judged": 27000, "matrix_inherited_static_via_instance": 3900, "matrix_inside_method": 10900,
+                 "dstarcall_judged": 7500, "dstarcall_repeated_key_judged": 2600, "generic_class_judged": 8000},
 }
 CODES = {"incompatible_argument", "incompatible_call"}
 BATCH = 150
@@ -124,9 +163,9 @@ def ret_for(rng, params, style):
     return "None", "None"
 
 
-def gen_callable(rng, k: int) -> Callable_:
+def gen_callable(rng, k: int, kinds=None) -> Callable_:
     style = rng.randrange(2)
-    kind = rng.choice(["plain", "plain", "plain", "default", "kwonly", "star", "dstar", "method", "classmethod", "staticmethod", "init", "dataclass", "namedtuple", "posonly-dstar", "bad-default", "new", "new+init"])
+    kind = rng.choice(kinds or ["plain", "plain", "plain", "default", "kwonly", "star", "dstar", "method", "classmethod", "staticmethod", "init", "dataclass", "namedtuple", "posonly-dstar", "bad-default", "new", "new+init"])
     n = rng.randrange(1, 4)
     ptypes = [rng.choice(PARAM_TYPES) for _ in range(n)]
     pnames = [f"p{i}" for i in range(n)]
@@ -209,6 +248,9 @@ def gen_callable(rng, k: int) -> Callable_:
 
 GENERIC_DEFS = '''
 import dataclasses
+from typing import AnyStr
+from typing_extensions import ParamSpec
+P_ = ParamSpec("P_")
 TB = TypeVar("TB", bound=A)
 TC = TypeVar("TC", int, str)
 U_ = TypeVar("U_")
@@ -235,6 +277,13 @@ def g_keys(d: Dict[K, V]) -> List[K]:
     return list(d)
 def to_str(x: int) -> str:
     return str(x)
+def fw_none(fn_: Callable[P_, object], *args: P_.args, **kwargs: P_.kwargs) -> None:
+    fn_(*args, **kwargs)
+def fw_bool(fn_: Callable[P_, object], *args: P_.args, **kwargs: P_.kwargs) -> bool:
+    fn_(*args, **kwargs)
+    return True
+def fw_ret(fn_: Callable[P_, U_], *args: P_.args, **kwargs: P_.kwargs) -> U_:
+    return fn_(*args, **kwargs)
 '''
 GENERICS = [
     ("g_ident", [("x", ty.OBJECT)]), ("g_first", [("xs", ty.List(ty.OBJECT))]), ("g_pair", [("a", ty.OBJECT), ("b", ty.OBJECT)]),
@@ -633,24 +682,564 @@ class BindOracle:
         return BindOracle(j["fname"], {p: _ty_from_ast(ast.parse(a, mode="eval").body) for p, a in j["ptypes"].items()})
 
 
-NEW_KINDS = ("generic-gen", "starcall", "new", "new+init")  # witnesses of these kinds carry their own expectation
-FEAT_KINDS = ("generic-gen", "starcall")
+# ---------------------------------------------------------------------------
+# kind "shared-tv": ONE type variable on two or more parameters, through covariant forms only, in every container
+# (function, keyword-only parameter, method, staticmethod, classmethod, __init__); the return annotation usually
+# mentions NO type variable (bool / None / int / str; every __init__), so nothing but the solver relates the arguments.
+# The expectation is the statement's: a diagnostic iff NO admissible value of the variable (one of its constraints; its
+# bound; object) makes every argument a member of the substituted parameter type.
+
+SHARED_TVS = {"T": [ty.OBJECT], "TN": [F], "TC": [I, S], "AnyStr": [S, ty.Cls(bytes)]}  # admissible solutions (covariant use)
+SHARED_ERASED = {"T": ty.OBJECT, "TN": F, "TC": ty.Union(I, S), "AnyStr": ty.Union(S, ty.Cls(bytes))}
+SFORMS = [
+    ("{v}", lambda e: e, None),
+    ("Optional[{v}]", lambda e: ty.Union(e, NONE), "None"),
+    ("Sequence[{v}]", ty.Seq, "()"),
+    ("Tuple[{v}, int]", lambda e: ty.Tuple(e, I), None),
+    ("Tuple[{v}, ...]", ty.VarTuple, "()"),
+    ("Iterable[{v}]", ty.Iter, "()"),
+]
+SFORM_WEIGHTS = [9, 2, 2, 1, 1, 1]
+PLAIN_RETS = [("bool", "True"), ("None", "None"), ("int", "0"), ("str", "'r'")]
+SHARED_CONTAINERS = ["plain", "plain", "kwonly", "method", "staticmethod", "classmethod", "init", "init"]
+
+
+def gen_shared_callable(rng, k: int) -> Callable_:
+    v = rng.choice(["TC", "TC", "TC", "AnyStr", "AnyStr", "T", "TN"])
+    container = rng.choice(SHARED_CONTAINERS)
+    n = rng.choice([2, 2, 3])
+    mention = [True] * n
+    if n == 3 and rng.random() < 0.4:
+        mention[rng.randrange(3)] = False
+    forms, plain, anns, dflts = [], [], [], []
+    for i in range(n):
+        if mention[i]:
+            fi = rng.choices(range(len(SFORMS)), SFORM_WEIGHTS)[0]
+            forms.append(fi)
+            plain.append(None)
+            anns.append(SFORMS[fi][0].format(v=v))
+            dflts.append(SFORMS[fi][2])  # a default that says nothing about the variable, or None
+        else:
+            t = rng.choice([I, S, ty.Union(I, NONE)])
+            forms.append(None)
+            plain.append(t)
+            anns.append(ty.render(t, 0))
+            dflts.append(literal_items(t, rng, True, 1)[0].src)
+    # defaults only on a trailing run of parameters that have one
+    n_def = 0
+    if rng.random() < 0.4:
+        while n_def < n - 1 and dflts[n - 1 - n_def] is not None and rng.random() < 0.7:
+            n_def += 1
+    kw_from = n - 1 if container == "kwonly" else (n - n_def if n_def and rng.random() < 0.3 else None)
+    parts, meta = [], []
+    for i in range(n):
+        has_default = i >= n - n_def
+        if kw_from is not None and i == kw_from:
+            parts.append("*")
+        parts.append(f"p{i}: {anns[i]}" + (f" = {dflts[i]}" if has_default else ""))
+        erased = plain[i] if forms[i] is None else SFORMS[forms[i]][1](SHARED_ERASED[v])
+        meta.append((f"p{i}", erased, has_default, kw_from is not None and i >= kw_from))
+    bare = [f"p{i}" for i in range(n) if forms[i] == 0]
+    ret_var = bool(bare) and container != "init" and rng.random() < 0.25
+    ret_ann, ret_expr = (v, rng.choice(bare)) if ret_var else rng.choice(PLAIN_RETS)
+    sig = ", ".join(parts)
+    if container in ("plain", "kwonly"):
+        name, prefixes = f"sv{k}", [f"sv{k}"]
+        lines = [f"def sv{k}({sig}) -> {ret_ann}:", f"    return {ret_expr}"]
+    else:
+        name = f"KS{k}"
+        if container == "method":
+            lines = [f"class {name}:", f"    def m(self, {sig}) -> {ret_ann}:", f"        return {ret_expr}"]
+            prefixes = [f"{name}().m"]
+        elif container == "staticmethod":
+            lines = [f"class {name}:", "    @staticmethod", f"    def sm({sig}) -> {ret_ann}:", f"        return {ret_expr}"]
+            prefixes = [f"{name}.sm", f"{name}().sm"]
+        elif container == "classmethod":
+            lines = [f"class {name}:", "    @classmethod", f"    def cm(cls, {sig}) -> {ret_ann}:", f"        return {ret_expr}"]
+            prefixes = [f"{name}.cm", f"{name}().cm"]
+        else:
+            body = [f"        self.p{i} = p{i}" for i in range(n)]
+            lines = [f"class {name}:", f"    def __init__(self, {sig}) -> None:"] + body
+            prefixes = [name]
+            ret_ann = name
+    c = Callable_("shared-tv", name, lines, prefixes[0], meta, ret_ann, generic=True)
+    c.prefixes, c.typevar, c.forms, c.plain, c.container, c.ret_var = prefixes, v, forms, plain, container, ret_var
+    return c
+
+
+def shared_expectation(c: Callable_, passed: list):
+    """passed: [(parameter index, object)] -> (expected error True/False/None, class of the argument tuple)"""
+    plain_ok = ty.and3([ty.member(o, c.plain[i]) for i, o in passed if c.forms[i] is None])
+    mentions = [(i, o) for i, o in passed if c.forms[i] is not None]
+    joint_ok = ty.or3([ty.and3([ty.member(o, SFORMS[c.forms[i]][1](sol)) for i, o in mentions]) for sol in SHARED_TVS[c.typevar]])
+    ok = ty.and3([plain_ok, joint_ok])
+    if ok is None:
+        return None, "unknown"
+    if ok:
+        return False, "consistent"
+    each = ty.and3([ty.member(o, c.params[i][1]) for i, o in passed])
+    return True, ("joint-inconsistent" if each else "nonmember")
+
+
+def gen_shared_calls(rng, c: Callable_, n: int) -> list:
+    calls = []
+    sols = SHARED_TVS[c.typevar]
+    mention_idx = [i for i in range(len(c.params)) if c.forms[i] is not None]
+    for _ in range(n):
+        s0 = rng.choice(sols)
+        mode = rng.choices(["consistent", "joint", "nonmember"], [5, 5 if len(sols) > 1 else 0, 2])[0]
+        odd = rng.choice(mention_idx) if mode == "joint" else (rng.randrange(len(c.params)) if mode == "nonmember" else -1)
+        args, kwargs, srcs, passed = [], [], [], []
+        skipped = False
+        for i, (p, erased, has_default, kwonly) in enumerate(c.params):
+            if has_default and i != odd and rng.random() < 0.5:
+                skipped = True
+                continue
+            if c.forms[i] is None:
+                items = literal_items(c.plain[i], rng, i != odd, 4)
+            elif i == odd and mode == "joint":
+                form = SFORMS[c.forms[i]][1]
+                s1 = rng.choice([x for x in sols if x is not s0])
+                items = [it for it in literal_items(form(s1), rng, True, 8) if ty.member(it.obj, form(s0)) is False]
+            elif i == odd:
+                items = literal_items(erased, rng, False, 4)
+            else:
+                items = literal_items(SFORMS[c.forms[i]][1](s0), rng, True, 6)
+            if not items:
+                break
+            it = rng.choice(items)
+            passed.append((i, it.obj))
+            srcs.append(it.src)
+            if kwonly or kwargs or skipped or rng.random() < 0.2:
+                kwargs.append(f"{p}={it.src}")
+            else:
+                args.append(it.src)
+        else:
+            expected, cls = shared_expectation(c, passed)
+            feat = f"{c.typevar}:{c.container}:ret-{'var' if c.ret_var else 'novar'}:{cls}"
+            calls.append((f"{rng.choice(c.prefixes)}({', '.join(args + kwargs)})", expected,
+                          ("shared-tv", c.ret_desc if c.container != "init" else "init", tuple(SFORMS[f][0] if f is not None else ty_kind(c.plain[i]) for i, f in enumerate(c.forms)), tuple(srcs), feat)))
+    return calls
+
+
+# ---------------------------------------------------------------------------
+# kind "pspec-forward": the calls generated for a plain callable, routed through a ParamSpec forwarder
+# fw(fn_: Callable[P, R], *args: P.args, **kwargs: P.kwargs) whose return annotation is None / bool (no type variable)
+# or R. The forwarded arguments are acceptable exactly when the direct call's are.
+
+FORWARDERS = [("fw_none", "novar"), ("fw_bool", "novar"), ("fw_ret", "var")]
+FORWARDABLE = ("plain", "default", "kwonly", "star", "dstar")
+
+
+def forwarded_calls(rng, c: Callable_, cs: list) -> list:
+    out = []
+    for src, expected, desc in cs:
+        fw, retk = rng.choice(FORWARDERS)
+        inner = src[len(c.call_prefix) + 1 : -1]
+        verdict = "unknown" if expected is None else ("error" if expected else "clean")
+        out.append((f"{fw}({c.name}{', ' + inner if inner else ''})", expected,
+                    ("pspec-forward", fw, desc[0], desc[1], desc[2], f"{desc[0]}:ret-{retk}:{verdict}")))
+    return out
+
+
+# ---------------------------------------------------------------------------
+# kind "dstarcall": some arguments travel in a **-argument that is a dict display: flat, with a nested **{...}, with a
+# key written twice (in one display, across the nesting levels, across two **-arguments is a binding error and is left
+# out), or dict(k=v). CPython evaluates the display (the LAST occurrence of a key wins) and binds (BindOracle).
+
+# one mechanism: a key written again at another nesting level of a **{...} display - the FIRST occurrence is bound
+# (CPython: the last), so the wrong value is checked and the result type follows the wrong value
+DSTAR_NESTED_REPEAT_KEY = "misjudged|dstarcall|key-repeated-across-a-nested-**-of-a-dict-display-first-occurrence-wins"
+DSTAR_FORMS = ["flat", "flat", "nested", "repeat", "nested-repeat-inner-last", "nested-repeat-outer-last", "two-dstars", "dict-call"]
+
+
+def gen_dstar_callable(rng, k: int) -> Callable_:
+    c = gen_callable(rng, k, kinds=["plain", "plain", "default", "kwonly", "dstar"])
+    c.orig_kind, c.kind = c.kind, "dstarcall"
+    return c
+
+
+def gen_dstar_calls(rng, c: Callable_, n: int) -> list:
+    calls = []
+    ptypes = {p: t for p, t, _d, _k in c.params}
+    if c.dstar is not None:
+        ptypes["kwargs"] = c.dstar
+    for _ in range(n):
+        slots = [(p, t, kwonly) for p, t, has_default, kwonly in c.params if not (has_default and rng.random() < 0.3)]
+        if c.dstar is not None and rng.random() < 0.7:
+            slots.append(("zz", c.dstar, True))
+        if not slots:
+            continue
+        bad = rng.randrange(len(slots)) if rng.random() < 0.4 else -1
+        chosen = []
+        for j, (p, t, kwonly) in enumerate(slots):
+            items = literal_items(t, rng, j != bad, 4) or literal_items(t, rng, True, 4)
+            if not items:
+                break
+            chosen.append(rng.choice(items))
+        else:
+            # a prefix goes by position, the rest by keyword; at least the last one through the dict display
+            npos = 0
+            while npos < len(slots) - 1 and not slots[npos][2] and rng.random() < 0.4:
+                npos += 1
+            rest = list(range(npos, len(slots)))
+            nkw = rng.randrange(0, len(rest)) if rng.random() < 0.4 else 0
+            explicit, through = rest[:nkw], rest[nkw:]
+            form = rng.choice(DSTAR_FORMS)
+            if form == "dict-call" and bad != -1:
+                form = "flat"  # what dict(k=v) holds is not statically known to pyanalyze: only all-member calls (no diagnostic allowed)
+            pairs = [(repr(slots[j][0]), chosen[j].src) for j in through]
+            jr = through[-1]
+            other = None
+            if "repeat" in form:
+                # the same key once more with a value of the opposite membership: which occurrence wins decides
+                p, t, _ko = slots[jr]
+                opp = literal_items(t, rng, ty.member(chosen[jr].obj, t) is False, 4)
+                if opp:
+                    other = rng.choice(opp).src
+                else:
+                    form = "flat"
+            def disp(ps):
+                return "{" + ", ".join(f"{k_}: {v_}" for k_, v_ in ps) + "}"
+            key_r = repr(slots[jr][0])
+            if form == "flat":
+                star = "**" + disp(pairs)
+            elif form == "nested":
+                cut = rng.randrange(0, len(pairs))
+                star = "**{" + ", ".join([f"{k_}: {v_}" for k_, v_ in pairs[:cut]] + ["**" + disp(pairs[cut:])]) + "}"
+            elif form == "repeat":
+                star = "**" + disp([(key_r, other)] + pairs)
+            elif form == "nested-repeat-inner-last":
+                star = "**{" + ", ".join([f"{k_}: {v_}" for k_, v_ in [(key_r, other)] + pairs[:-1]] + ["**" + disp(pairs[-1:])]) + "}"
+            elif form == "nested-repeat-outer-last":
+                star = "**{" + ", ".join(["**" + disp([(key_r, other)])] + [f"{k_}: {v_}" for k_, v_ in pairs]) + "}"
+            elif form == "two-dstars":
+                cut = rng.randrange(0, len(pairs))
+                star = ", ".join("**" + disp(ps) for ps in (pairs[:cut], pairs[cut:]))
+            else:
+                star = "**dict(" + ", ".join(f"{slots[j][0]}={chosen[j].src}" for j in through) + ")"
+            args = [chosen[j].src for j in range(npos)] + [f"{slots[j][0]}={chosen[j].src}" for j in explicit] + [star]
+            srcs = tuple(ch.src for ch in chosen) + ((other,) if other else ())
+            calls.append((f"{c.call_prefix}({', '.join(args)})", BindOracle(c.name, ptypes),
+                          ("dstarcall", tuple(ty_kind(t) for _p, t, _d, _k in c.params), srcs, f"dstar-{form}")))
+    return calls
+
+
+# ---------------------------------------------------------------------------
+# kind "method-matrix": method kind (plain / classmethod / staticmethod) x definition site (the receiver's own class /
+# inherited from the base / from the grandparent / overridden with other parameter types / inherited next to overrides)
+# x receiver form (the class, an instance literal, an instance known only by type (parameter), type[R] parameter, a
+# module-level instance, self / cls inside another method of the receiver class, super() in a method / classmethod).
+# CPython decides what the attribute access produces and how the arguments bind (MethodOracle).
+
+MATRIX_RECV = {
+    "m": ["inst", "param", "class", "self", "super", "modvar"],
+    "cm": ["class", "inst", "param", "typeparam", "self", "cls", "super", "super-cls", "modvar"],
+    "sm": ["class", "inst", "inst", "param", "param", "typeparam", "self", "self", "cls", "super", "super-cls", "modvar"],
+}
+IN_METHOD = {"self": ("self", False), "cls": ("cls", True), "super": ("super()", False), "super-cls": ("super()", True)}
+
+
+def _gen_sig(rng, style, like=None):
+    """-> (signature text, meta [(name, Ty, has_default, kwonly)], return annotation, return expression); `like` = a
+    signature whose shape (names, defaults, keyword-only marker) is kept while the types are drawn again"""
+    if like is None:
+        n = rng.randrange(1, 4)
+        shape = [(False, False)] * n
+        r = rng.random()
+        if r < 0.3:
+            shape[-1] = (True, False)
+        elif r < 0.45:
+            shape[-1] = (rng.random() < 0.6, True)
+    else:
+        shape = [(d, ko) for _p, _t, d, ko in like]
+    parts, meta = [], []
+    for i, (has_default, kwonly) in enumerate(shape):
+        t = rng.choice(PARAM_TYPES)
+        text = f"p{i}: {ty.render(t, style)}"
+        if has_default:
+            inh = literal_items(t, rng, True, 3)
+            if inh:
+                text += f" = {inh[0].src}"
+            else:
+                has_default = False
+        if kwonly:
+            parts.append("*")
+        parts.append(text)
+        meta.append((f"p{i}", t, has_default, kwonly))
+    ret_ann, ret_expr = ret_for(rng, [(p, t) for p, t, _d, _k in meta], style)
+    return ", ".join(parts), meta, ret_ann, ret_expr
+
+
+class Family:
+    """MB (defines m / cm / sm), MM(MB), ML(MM) inherit everything, MO(MB) overrides some of them."""
+
+    ROLES = ("MB", "MM", "ML", "MO")
+    BASES = {"MB": None, "MM": "MB", "ML": "MM", "MO": "MB"}
+
+    def __init__(self, rng, k: int):
+        self.k = k
+        style = rng.randrange(2)
+        self.sigs = {}
+        for meth in ("m", "cm", "sm"):
+            self.sigs["MB", meth] = _gen_sig(rng, style)
+        self.overridden = [meth for meth in ("m", "cm", "sm") if rng.random() < 0.7] or ["sm"]
+        for meth in self.overridden:
+            self.sigs["MO", meth] = _gen_sig(rng, style, like=self.sigs["MB", meth][1])
+        self.callers = {r: [] for r in self.ROLES}  # role -> lines
+        self.modvars = []
+        self.ncallers = 0
+
+    def cls(self, role: str) -> str:
+        return f"{role}{self.k}"
+
+    def resolve(self, role: str, meth: str, via_super: bool) -> str:
+        """role of the class whose definition the lookup finds"""
+        if via_super:
+            return "MB"
+        return "MO" if role == "MO" and meth in self.overridden else "MB"
+
+    def defsite(self, role: str, meth: str, via_super: bool) -> str:
+        if via_super:
+            return {"MM": "base", "ML": "grandparent", "MO": "base-of-overrider"}[role]
+        if role == "MO":
+            return "overridden" if meth in self.overridden else "inherited-beside-overrides"
+        return {"MB": "own", "MM": "inherited", "ML": "inherited-from-grandparent"}[role]
+
+    def ptypes(self) -> dict:
+        return {f"{self.cls(role)}.{meth}": {p: t for p, t, _d, _k in sig[1]} for (role, meth), sig in self.sigs.items()}
+
+    def render(self) -> list:
+        lines = []
+        for role in self.ROLES:
+            base = self.BASES[role]
+            lines.append(f"class {self.cls(role)}{'(' + self.cls(base) + ')' if base else ''}:")
+            body = []
+            for meth, deco, first in (("m", None, "self"), ("cm", "@classmethod", "cls"), ("sm", "@staticmethod", None)):
+                if (role, meth) in self.sigs:
+                    sig, _meta, ret_ann, ret_expr = self.sigs[role, meth]
+                    if deco:
+                        body.append(f"    {deco}")
+                    body.append(f"    def {meth}({first + ', ' if first else ''}{sig}) -> {ret_ann}:")
+                    body.append(f"        return {ret_expr}")
+            body += self.callers[role]
+            lines += body or ["    pass"]
+        return lines + self.modvars
+
+
+def gen_matrix_family(rng, k: int) -> Callable_:
+    fam = Family(rng, k)
+    c = Callable_("method-matrix", fam.cls("MB"), fam.render(), fam.cls("MB"), [], "")
+    c.family = fam
+    return c
+
+
+def gen_matrix_calls(rng, c: Callable_, n: int) -> list:
+    fam = c.family
+    calls = []
+    ptypes = fam.ptypes()
+    for _ in range(n):
+        meth = rng.choice(["m", "cm", "sm", "sm"])
+        recv = rng.choice(MATRIX_RECV[meth])
+        role = rng.choice(Family.ROLES if not recv.startswith("super") else Family.ROLES[1:])
+        R = fam.cls(role)
+        via_super = recv.startswith("super")
+        target = fam.resolve(role, meth, via_super)
+        _sig, meta, ret_ann, _e = fam.sigs[target, meth]
+        extra = {"env": {}, "exec": None, "where": None, "defs": c.def_lines}
+        if recv == "inst":
+            prefix = callee = f"{R}().{meth}"
+        elif recv == "class":
+            prefix = callee = f"{R}.{meth}"
+        elif recv == "param":
+            name = f"r_{R}"
+            extra["env"][name] = (R, f"{R}()")
+            prefix = callee = f"{name}.{meth}"
+        elif recv == "typeparam":
+            name = f"t_{R}"
+            extra["env"][name] = (f"Type[{R}]", R)
+            prefix = callee = f"{name}.{meth}"
+        elif recv == "modvar":
+            name = f"MI_{R}"
+            if f"{name} = {R}()" not in fam.modvars:
+                fam.modvars.append(f"{name} = {R}()")
+            prefix = callee = f"{name}.{meth}"
+        else:
+            obj, in_classmethod = IN_METHOD[recv]
+            prefix = f"{obj}.{meth}"
+            if recv == "self":
+                callee = f"{R}().{meth}"
+            elif recv == "cls":
+                callee = f"{R}.{meth}"
+            else:
+                callee = f"super({R}, {R if in_classmethod else R + '()'}).{meth}"
+        tmp = Callable_("method-matrix", R, [], prefix, meta, ret_ann)
+        got = gen_calls(rng, tmp, 1)
+        if not got:
+            continue
+        src, _static, desc = got[0]
+        inner = src[len(prefix) + 1 : -1]
+        if meth == "m" and recv == "class":
+            inner = f"{R}()" + (", " + inner if inner else "")  # the receiver handed over explicitly
+            src = f"{prefix}({inner})"
+        if recv in IN_METHOD:
+            j = fam.ncallers
+            fam.ncallers += 1
+            in_classmethod = IN_METHOD[recv][1]
+            if in_classmethod:
+                fam.callers[role] += ["    @classmethod", f"    def c{j}(cls):", f"        return {src}"]
+                extra["exec"] = f"{R}.c{j}()"
+            else:
+                fam.callers[role] += [f"    def c{j}(self):", f"        return {src}"]
+                extra["exec"] = f"{R}().c{j}()"
+            extra["where"] = [R, f"c{j}"]
+        feat = f"{ {'m': 'plain', 'cm': 'classmethod', 'sm': 'staticmethod'}[meth] }:{fam.defsite(role, meth, via_super)}:{recv}"
+        oracle = MethodOracle(callee, inner, ptypes)
+        calls.append((src, oracle, ("method-matrix", desc[1], desc[2], feat), extra))
+    c.def_lines[:] = fam.render()
+    return calls
+
+
+# ---------------------------------------------------------------------------
+# kind "generic-class": methods / classmethods / the constructor of class GB(Generic[T]) reached through a subclass
+# GS(GB[B]) (and its child GL) that binds T to a concrete type B, or through the alias GB[B]: every parameter
+# annotated T has the declared type B there.
+
+GC_BINDINGS = [I, S, F, BL, ty.Cls(bytes), ty.Cls(prelude.Num), ty.Union(I, NONE), ty.Union(I, S), ty.Tuple(I, S), ty.Lit(1), ty.Cls(prelude.Color)]
+GC_METHODS = {  # name -> (decorator, first parameter, return annotation (None: the class itself), return expression)
+    "put": (None, "self", "bool", "True"), "swap": (None, "self", "T", "y"),
+    "mk": ("@classmethod", "cls", None, "cls(y)"), "chk": ("@classmethod", "cls", "None", "None"),
+}
+GC_VIA = {
+    "init": ["sub-class", "grandchild-class"],
+    "put": ["sub-inst", "sub-param", "grandchild-inst", "grandchild-param", "alias-param"],
+    "swap": ["sub-inst", "sub-param", "grandchild-param", "alias-param"],
+    "mk": ["sub-class", "sub-class", "grandchild-class", "sub-param", "sub-typeparam", "alias-class"],
+    "chk": ["sub-class", "sub-class", "grandchild-class", "sub-inst", "sub-typeparam", "alias-class"],
+}
+
+
+def gen_generic_class(rng, k: int) -> Callable_:
+    b = rng.choice(GC_BINDINGS)
+    oks = literal_items(b, rng, True, 4)
+    lines = [f"class GB{k}(Generic[T]):", "    def __init__(self, y: T) -> None:", "        self.y = y"]
+    for name, (deco, first, ret, expr) in GC_METHODS.items():
+        if deco:
+            lines.append(f"    {deco}")
+        ret_ann = ret if ret is not None else f"'GB{k}[T]'"
+        lines += [f"    def {name}({first}, y: T) -> {ret_ann}:", f"        return {expr}"]
+    lines += [f"class GS{k}(GB{k}[{ty.render(b, 0)}]):", "    pass", f"class GL{k}(GS{k}):", "    pass"]
+    c = Callable_("generic-class", f"GB{k}", lines, f"GS{k}", [("y", b, False, False)], "")
+    c.binding, c.ok, c.k = b, oks[0].src, k
+    return c
+
+
+def gen_generic_class_calls(rng, c: Callable_, n: int) -> list:
+    calls = []
+    k, b = c.k, c.binding
+    for _ in range(n):
+        meth = rng.choice(["init", "put", "put", "swap", "mk", "mk", "chk", "chk"])
+        via = rng.choice(GC_VIA[meth])
+        who, form = via.rsplit("-", 1)
+        cls_ = {"sub": f"GS{k}", "grandchild": f"GL{k}", "alias": f"GB{k}[{ty.render(b, 0)}]"}[who]
+        extra = {"env": {}, "exec": None, "where": None, "defs": c.def_lines}
+        if form == "class":
+            recv = cls_
+        elif form == "inst":
+            recv = f"{cls_}({c.ok})"
+        elif form == "param":
+            recv = f"r_{who}{k}"
+            extra["env"][recv] = (cls_, f"{cls_}({c.ok})" if who != "alias" else f"GB{k}({c.ok})")
+        else:
+            recv = f"t_{who}{k}"
+            extra["env"][recv] = (f"Type[{cls_}]", cls_)
+        items = literal_items(b, rng, rng.random() < 0.5, 4) or literal_items(b, rng, True, 4)
+        if not items:
+            continue
+        it = rng.choice(items)
+        m = ty.member(it.obj, b)
+        expected = None if m is None else not m
+        arg = it.src if rng.random() < 0.8 else f"y={it.src}"
+        src = f"{recv}({arg})" if meth == "init" else f"{recv}.{meth}({arg})"
+        calls.append((src, expected, ("generic-class", ty_kind(b), it.src, f"{meth}:{via}"), extra))
+    return calls
+
+
+class MethodOracle:
+    """Expectation decided at check time by CPython: the attribute access is performed, the arguments are evaluated
+    and bound with inspect.signature(<what the access produced>).bind, and every bound value is tested for membership
+    in the annotation of the parameter it landed in - the annotations of the definition CPython found (__qualname__)."""
+
+    def __init__(self, callee: str, inner: str, ptypes: dict):
+        self.callee, self.inner, self.ptypes = callee, inner, ptypes
+
+    def __call__(self, src: str, ns, loc=None):
+        import inspect
+
+        try:
+            callee = eval(self.callee, ns, loc)
+            a, k = eval(f"(lambda *a, **k: (a, k))({self.inner})", ns, loc)
+            sig = inspect.signature(callee)
+            bound = sig.bind(*a, **k)
+        except TypeError:
+            return "nobind", ""
+        fn = getattr(callee, "__func__", callee)
+        ptypes = self.ptypes[fn.__qualname__]
+        verdicts = []
+        for pname, val in bound.arguments.items():
+            t = ptypes.get(pname)
+            if t is not None:
+                verdicts.append(ty.member(val, t))
+        if any(m is None for m in verdicts):
+            return None, ""
+        return any(m is False for m in verdicts), ""
+
+    def to_json(self):
+        return {"callee": self.callee, "inner": self.inner,
+                "ptypes": {q: {p: ty.render(t, 0) for p, t in d.items()} for q, d in self.ptypes.items()}}
+
+    @staticmethod
+    def from_json(j):
+        from vp.props.c03 import _ty_from_ast
+
+        return MethodOracle(j["callee"], j["inner"], {q: {p: _ty_from_ast(ast.parse(a, mode="eval").body) for p, a in d.items()}
+                                                      for q, d in j["ptypes"].items()})
+
+
+NEW_KINDS = ("generic-gen", "starcall", "new", "new+init", "shared-tv", "pspec-forward", "method-matrix", "dstarcall", "generic-class")  # witnesses of these kinds carry their own expectation
+FEAT_KINDS = ("generic-gen", "starcall", "shared-tv", "pspec-forward", "method-matrix", "dstarcall", "generic-class")
+HEAD0 = ["from vp.prelude import *", "import typing", GENERIC_DEFS]
 
 
 def check_batch(ctx, callables, calls, head=None) -> None:
-    lines = ["from vp.prelude import *", "import typing", GENERIC_DEFS]
+    """calls: (source, expectation, description[, extra]); extra = {"env": {holder parameter: (annotation, constructor
+    source)}, "where": [class, method] when the call is the return value of that method instead of a holder line,
+    "exec": the expression that executes such a call, "defs": the definition lines the call needs (for the witness)}"""
+    lines = list(HEAD0)
     for c in callables:
         lines += c.def_lines
     if head is not None:
         lines = [head.rstrip("\n")]
-    lines.append("def holder():")
-    start = sum(l.count("\n") + 1 for l in lines)
-    for src, _e, _d in calls:
-        lines.append(f"    {src}")
+    env = {}
+    for call in calls:
+        if len(call) > 3:
+            env.update(call[3]["env"])
+    lines.append(f"def holder({', '.join(f'{n}: {ann}' for n, (ann, _ctor) in env.items())}):")
+    in_holder = [i for i, call in enumerate(calls) if not (len(call) > 3 and call[3]["where"])]
+    for i in in_holder:
+        lines.append(f"    {calls[i][0]}")
+    if not in_holder:
+        lines.append("    pass")
     source = "\n".join(lines) + "\n"
     tree = ast.parse(source)
     holder = next(n for n in tree.body if isinstance(n, ast.FunctionDef) and n.name == "holder")
-    assert len(holder.body) == len(calls)
+    assert len(holder.body) == max(1, len(in_holder))
+    stmts = {i: holder.body[j] for j, i in enumerate(in_holder)}
+    classes = {n.name: n for n in tree.body if isinstance(n, ast.ClassDef)}
+    for i, call in enumerate(calls):
+        if i not in stmts:
+            cname, mname = call[3]["where"]
+            stmts[i] = next(b for b in classes[cname].body if isinstance(b, ast.FunctionDef) and b.name == mname).body[0]
     res = harness.run(source, tree=tree, annotate=True, keep_module=True, overrides={"missing_return": False})
     try:
         if res.exception is not None:
@@ -658,13 +1247,16 @@ def check_batch(ctx, callables, calls, head=None) -> None:
             return
         by_line = res.by_line()
         ns = res.module.__dict__
-        for i, (src, expected, desc) in enumerate(calls):
-            st = holder.body[i]
+        for i, call in enumerate(calls):
+            src, expected, desc = call[:3]
+            extra = call[3] if len(call) > 3 else None
+            st = stmts[i]
             ds = [d for d in by_line.get(st.lineno, []) if d.code in CODES]
             other = [d.code for d in by_line.get(st.lineno, []) if d.code not in CODES]
             ctx.count("evaluations")
+            loc = {n: eval(ctor, ns) for n, (_ann, ctor) in extra["env"].items()} if extra else None
             try:
-                result = eval(src, ns)
+                result = eval((extra and extra["exec"]) or src, ns, loc)
                 raised = None
             except TypeError as e:
                 raised = e
@@ -681,6 +1273,12 @@ def check_batch(ctx, callables, calls, head=None) -> None:
                 continue
             diagnosed = bool(ds)
             wit = {"source": source, "index": i, "call": src}
+            defs_text = None
+            if extra is not None:
+                # a minimal module: the definitions this call needs and the call alone
+                defs_text = "\n".join(extra["defs"])
+                wit = {"source": "\n".join(HEAD0 + list(extra["defs"])) + "\ndef holder():\n    pass\n", "index": 0, "call": src,
+                       "extra": {"env": {n: list(v) for n, v in extra["env"].items()}, "exec": extra["exec"], "where": extra["where"]}}
             feat = ""
             if desc[0] in NEW_KINDS:
                 feat = desc[-1] if desc[0] in FEAT_KINDS else ""
@@ -691,18 +1289,55 @@ def check_batch(ctx, callables, calls, head=None) -> None:
                     if expected == "nobind":
                         ctx.count("calls_not_binding_skipped")
                         continue
-                    if bad_roles:
-                        feat = f"{feat}|{bad_roles}"
-                    ctx.count("starcall_judged")
-                    if "star-long" in feat and expected is not None:
-                        ctx.count("starcall_long_judged")
-                        ctx.count("starcall_long_expect_error" if expected else "starcall_long_expect_clean")
-                    ctx.histo("starcall_forms", f"{feat}:{'error' if expected else 'clean'}")
-                elif desc[0] != "generic-gen":
-                    wit["expected"] = expected
+                    if desc[0] == "dstarcall":
+                        if expected is not None:
+                            ctx.count("dstarcall_judged")
+                            if "repeat" in feat:
+                                ctx.count("dstarcall_repeated_key_judged")
+                            ctx.histo("dstarcall_forms", f"{feat}:{'error' if expected else 'clean'}")
+                    else:
+                        if bad_roles:
+                            feat = f"{feat}|{bad_roles}"
+                        ctx.count("starcall_judged")
+                        if "star-long" in feat and expected is not None:
+                            ctx.count("starcall_long_judged")
+                            ctx.count("starcall_long_expect_error" if expected else "starcall_long_expect_clean")
+                        ctx.histo("starcall_forms", f"{feat}:{'error' if expected else 'clean'}")
+                elif isinstance(expected, MethodOracle):
+                    wit["oracle"] = expected.to_json()
+                    expected, _ = expected(src, ns, loc)
+                    if expected == "nobind":
+                        ctx.count("calls_not_binding_skipped")
+                        continue
+                    if expected is not None:
+                        ctx.count("matrix_judged")
+                        kind_, site_, recv_ = feat.split(":")
+                        if kind_ == "staticmethod" and site_.startswith("inherited") and recv_ in ("inst", "param", "self"):
+                            ctx.count("matrix_inherited_static_via_instance")
+                        if recv_ in IN_METHOD:
+                            ctx.count("matrix_inside_method")
+                        ctx.histo("matrix_cells", f"{feat}:{'error' if expected else 'clean'}")
                 else:
                     wit["expected"] = expected
-                    ctx.histo("generic_gen_sources", f"{feat}:{'error' if expected else 'clean' if expected is False else 'unjudged'}")
+                    verdict = "error" if expected else "clean" if expected is False else "unjudged"
+                    if desc[0] == "generic-gen":
+                        ctx.histo("generic_gen_sources", f"{feat}:{verdict}")
+                    elif desc[0] == "shared-tv":
+                        ctx.histo("shared_tv_cells", feat)
+                        if expected is not None:
+                            ctx.count("shared_tv_judged")
+                            if feat.endswith("ret-novar:joint-inconsistent"):
+                                ctx.count("shared_tv_joint_inconsistent_without_variable_in_return")
+                    elif desc[0] == "generic-class":
+                        ctx.histo("generic_class_cells", f"{feat}:{verdict}")
+                        if expected is not None:
+                            ctx.count("generic_class_judged")
+                    elif desc[0] == "pspec-forward":
+                        ctx.histo("pspec_forward_cells", feat)
+                        if expected is not None:
+                            ctx.count("pspec_forward_judged")
+                            if feat.endswith("ret-novar:error"):
+                                ctx.count("pspec_forward_error_without_variable_in_return")
             if expected is None:
                 ctx.count("membership_unknown")
             else:
@@ -717,8 +1352,19 @@ def check_batch(ctx, callables, calls, head=None) -> None:
                         # one mechanism: explicit positionals written after a summarised *-argument are merged into it,
                         # so their types are reported against every parameter the *-argument may reach
                         key = "spurious|starcall|positional-after-summarised-star-merged-into-it"
+                    if desc[0] == "method-matrix" and feat.startswith("staticmethod:") and feat.endswith(":super"):
+                        # one mechanism: a staticmethod reached through super() inside a method is taken for a plain
+                        # method - the receiver is prepended and every argument shifts by one parameter
+                        key = "misjudged|method-matrix|staticmethod-through-super()-in-a-method-bound-like-a-plain-method"
+                    if desc[0] == "dstarcall" and "nested-repeat" in feat:
+                        key = DSTAR_NESTED_REPEAT_KEY
+                    if desc[0] == "generic-class" and expected and not ds and feat.split(":")[0] in ("mk", "chk"):
+                        # a classmethod defined in GB(Generic[T]): T keeps no binding when the method is reached through
+                        # a subclass of GB[B] (class object, type[...], instance) resp. through the subscripted GB[B]
+                        key = ("missed|generic-class|classmethod-through-subscripted-GB[B]-type-variable-left-unbound" if ":alias-" in feat
+                               else "missed|generic-class|classmethod-of-generic-base-through-a-subclass-binding-T-type-variable-left-unbound")
                     what = (f"`{src}`: an argument {'is not' if expected else 'is'} a member of its parameter type, pyanalyze reports "
-                            f"{[d.short() for d in ds][:1] if ds else 'nothing'}\n{definition_of(source, src)}")
+                            f"{[d.short() for d in ds][:1] if ds else 'nothing'}\n{defs_text if defs_text is not None else definition_of(source, src)}")
                     ctx.violation(key, what, wit)
             # (callables whose default lies outside the annotation are ill-typed themselves — pyanalyze reports
             # incompatible_default at the def — so what they return is not judged)
@@ -734,15 +1380,19 @@ def check_batch(ctx, callables, calls, head=None) -> None:
                             ctx.count("generic_gen_results_with_omitted_default")
                     elif desc[0] == "starcall":
                         ctx.count("starcall_results_checked")
+                    elif desc[0] == "method-matrix":
+                        ctx.count("matrix_results_checked")
                     if m is False:
                         key = f"result-not-in-inferred|{desc[0]}|{type(result).__name__} not in {tdesc(t)}" + (f"|{feat}" if feat else "")
                         if _equal_args_of_different_type(st.value, ns):
                             key = "result-not-in-inferred|equal-literal-arguments-of-different-type-merged"
-                        ctx.violation(key, f"`{src}` returned {result!r} but pyanalyze inferred {inferred}\n{definition_of(source, src)}", wit)
+                        if desc[0] == "dstarcall" and "nested-repeat" in feat:
+                            key = DSTAR_NESTED_REPEAT_KEY
+                        ctx.violation(key, f"`{src}` returned {result!r} but pyanalyze inferred {inferred}\n{defs_text if defs_text is not None else definition_of(source, src)}", wit)
                     elif m is None:
                         ctx.count("result_membership_unknown")
         if len(ctx.samples) < 3 and calls:
-            ctx.sample({"call": calls[0][0], "expected_error": calls[0][1]})
+            ctx.sample({"call": calls[0][0], "expected_error": calls[0][1] if isinstance(calls[0][1], (bool, type(None))) else "decided by CPython's binder"})
     finally:
         harness.forget_module(res.module)
 
@@ -787,6 +1437,8 @@ def tdesc(t: Ty) -> str:
 def definition_of(source: str, call_src: str) -> str:
     name = call_src.split("(")[0].split(".")[0]
     name = name.rstrip(")")
+    if name.startswith("fw_"):  # a forwarder: show the callable it forwards to
+        name = call_src.split("(", 1)[1].split(",")[0].rstrip(")").strip()
     tree = ast.parse(source)
     for n in tree.body:
         if isinstance(n, (ast.FunctionDef, ast.ClassDef)) and n.name == name:
@@ -821,6 +1473,8 @@ def shard(ctx) -> None:
         cs = gen_calls(rng, c, per)
         callables.append(c)
         calls.extend(cs)
+        if c.kind in FORWARDABLE and rng.random() < 0.18:
+            calls.extend(forwarded_calls(rng, c, cs))
         if len(calls) >= BATCH:
             check_batch(ctx, callables, calls)
             callables, calls = [], []
@@ -833,6 +1487,10 @@ def shard(ctx) -> None:
     for gen_c, gen_calls_, ncall2, per2 in (
         (gen_generic_callable, gen_generic_gen_calls, ctx.pick(45, 500), ctx.pick(5, 6)),
         (gen_star_callable, gen_star_calls, ctx.pick(40, 500), ctx.pick(6, 8)),
+        (gen_shared_callable, gen_shared_calls, ctx.pick(28, 400), ctx.pick(7, 8)),
+        (gen_matrix_family, gen_matrix_calls, ctx.pick(13, 200), ctx.pick(18, 20)),
+        (gen_dstar_callable, gen_dstar_calls, ctx.pick(9, 150), ctx.pick(8, 8)),
+        (gen_generic_class, gen_generic_class_calls, ctx.pick(6, 100), ctx.pick(10, 10)),
     ):
         callables, calls = [], []
         for _ in range(ncall2):
@@ -856,13 +1514,20 @@ def replay(witness):
     holder = next(n for n in tree.body if isinstance(n, ast.FunctionDef) and n.name == "holder")
     # re-run only the recorded call line: rebuild the module with that single call
     call_src = witness.get("call") or ast.get_source_segment(source, holder.body[witness["index"]].value)
-    head = source[: source.index("def holder():")]
+    head = source[: source.index("def holder(")]
     if witness.get("kind") in NEW_KINDS:
-        if witness["kind"] == "starcall":
+        if witness["kind"] in ("starcall", "dstarcall"):
             expected = BindOracle.from_json(witness["oracle"])
+        elif witness["kind"] == "method-matrix":
+            expected = MethodOracle.from_json(witness["oracle"])
         else:
             expected = witness.get("expected")
-        check_batch(ctx, [], [(call_src, expected, (witness["kind"], witness["feat"]))], head=head)
+        call = (call_src, expected, (witness["kind"], witness["feat"]))
+        if "extra" in witness:
+            ex = witness["extra"]
+            defs = head.split(GENERIC_DEFS, 1)[-1].strip("\n").split("\n")
+            call += ({"env": {n: tuple(v) for n, v in ex["env"].items()}, "exec": ex["exec"], "where": ex["where"], "defs": defs},)
+        check_batch(ctx, [], [call], head=head)
         for key, lst in ctx.violations.items():
             return key, lst[0]["what"]
         return None
